@@ -109,6 +109,7 @@ func corr(seed uint64, n int) {
 		emit(&id, g.history(true))
 	}
 	corrExtra(&id, hx.NewRng(seed^0xe1), n/4)
+	corrRecords(&id, hx.NewRng(seed^0x4ec), n/2)
 	// malformed / out-of-scope stream
 	g2 := &gen{r: hx.NewRng(seed ^ 0xc19c19)}
 	for i := 0; i < n; i++ {
